@@ -342,6 +342,17 @@ class TU:
         it = int_type(nty(g))
         return wrap(v, *it) if it else v
 
+    def array_values(self, qual):
+        """Folded elements of a constant array definition."""
+        for d in self.decls.get(qual, []):
+            if d.get('kind') == 'VarDecl' and 'init' in d:
+                inner = [x for x in d.get('inner', []) if x.get('kind') == 'InitListExpr']
+                if inner:
+                    vals = [self.fold_node(x) for x in inner[0].get('inner', [])]
+                    if all(v is not None for v in vals):
+                        return vals
+        raise AnalysisError('anchor vanished: constant array %s' % qual)
+
     def const(self, qual):
         v = self.global_value(qual)
         if v is None:
